@@ -3,9 +3,7 @@ package types
 import (
 	"bytes"
 	"fmt"
-	"io/ioutil"
 	"math/big"
-	"os"
 	"time"
 
 	errorsmod "cosmossdk.io/errors"
@@ -208,15 +206,10 @@ func verifyCascadingFields(header Header) error {
 	if VerifSkipSeal {
 		return nil
 	}
-	cachedir, err := ioutil.TempDir("", "")
-	if err != nil {
-		fmt.Println(err)
-		return errEthashStopped
-	}
-	defer os.RemoveAll(cachedir)
+	// the verification cache is kept in memory only: the result of a state
+	// transition must not depend on the host's file system
 	config := Config{
-		CacheDir:     cachedir,
-		CachesOnDisk: 1,
+		CachesInMem: 1,
 	}
 	ethash := New(config, nil, false)
 	defer ethash.Close()
